@@ -33,11 +33,31 @@ def quiet(fn, *a, **k):
         return fn(*a, **k)
 
 
+def input_object(data, wd, *key):
+    """the input handed to a converter function: a plain buffer, a stream without seek / tell / descriptor (a pipe), or a
+    gzip file object (whose descriptor is the compressed file).  Returns (file object, cleanup)."""
+    k = drv.pick(5, 'convin', len(data), key) if not drv.THREADED else 0
+    if k == 2:
+        return drv.new_file(data, kind='pipe'), (lambda: None)
+    if k == 4:
+        import gzip
+        path = os.path.join(wd, 'convin-%d-%d.gz' % (os.getpid(), drv.pick(10 ** 6, 'gz', len(data), key)))
+        with gzip.open(path, 'wb') as zf:
+            zf.write(data)
+        fh = gzip.open(path, 'rb')
+        return fh, (lambda: (fh.close(), os.unlink(path)))
+    return drv.new_file(data), (lambda: None)
+
+
 def run_ipm_tool(tool, data, a, b, fi, fo, wd, tag):
     """returns output bytes (or raises)"""
     if tool == 'mci_ipm_encode':
         out = drv.new_file()
-        mci_ipm_encode.mci_ipm_encode(drv.new_file(data), out_file=out, in_encoding=a, out_encoding=b, in_format=fi, out_format=fo)
+        src, done = input_object(data, wd, a, b, fi, fo, tag)
+        try:
+            mci_ipm_encode.mci_ipm_encode(src, out_file=out, in_encoding=a, out_encoding=b, in_format=fi, out_format=fo)
+        finally:
+            done()
         return out.getvalue()
     path = os.path.join(wd, 'conv-%d-%s.ipm' % (os.getpid(), tag))
     drv.spit(path, data)
@@ -214,7 +234,11 @@ def _drive_param(args):
         def conv(data, x, y, f1, f2, tag):
             if tool == 'mci_ipm_param_encode':
                 o = drv.new_file()
-                mci_ipm_param_encode.mci_ipm_param_encode(drv.new_file(data), o, in_encoding=x, out_encoding=y, in_format=f1, out_format=f2)
+                src, done = input_object(data, wd, x, y, f1, f2, tag)
+                try:
+                    mci_ipm_param_encode.mci_ipm_param_encode(src, o, in_encoding=x, out_encoding=y, in_format=f1, out_format=f2)
+                finally:
+                    done()
                 return o.getvalue()
             path = os.path.join(wd, 'pconv-%d-%s.bin' % (os.getpid(), tag))
             drv.spit(path, data)
